@@ -51,7 +51,7 @@ def replay(data):
 
 
 def check(run):
-  timeout = 400 if run.tier == 'quick' else 1500
+  timeout = 700 if run.tier == 'quick' else 2400
   run.functions += ['client_samplers.UniformGetClientSampler (sample / set_round_num / get_pseudo_random_state)', 'UniformShuffledClientSampler',
                     'InMemoryFederatedData.get_clients / shuffled_clients']
   run.trusted += ['CrossHair "Confirmed over all paths"', 'jax.random = free key algebra (PRNGKey(n), split(k, n)[i] are constructors)',
